@@ -100,7 +100,8 @@ type dealer struct {
 
 	actionChan chan func()
 	stopped    chan struct{}
-	// closing is closed when the dealer begins to stop, to end call timers.
+	// closing is closed to stop the dealer. actionChan itself is never closed,
+	// since the timer of a pending call may be about to post to it.
 	closing chan struct{}
 
 	// Generate registration IDs.
@@ -434,10 +435,8 @@ func (d *dealer) removeSessionQuiet(sess *wamp.Session) {
 
 // close stops the dealer, letting already queued actions finish.
 func (d *dealer) close() {
-	// Stop the timers of calls that are still pending, so that none of them
-	// posts a cancel action after the action channel is closed.
+	// This also stops the timers of calls that are still pending.
 	close(d.closing)
-	close(d.actionChan)
 	<-d.stopped
 	if d.debug {
 		d.log.Print("Dealer stopped")
@@ -445,10 +444,15 @@ func (d *dealer) close() {
 }
 
 func (d *dealer) run() {
-	for action := range d.actionChan {
-		action()
+	defer close(d.stopped)
+	for {
+		select {
+		case action := <-d.actionChan:
+			action()
+		case <-d.closing:
+			return
+		}
 	}
-	close(d.stopped)
 }
 
 func (d *dealer) syncRegister(callee *wamp.Session, msg *wamp.Register, match, invokePolicy string, disclose, forwardTimeout, wampURI bool) []*wamp.Publish { //nolint:lll
